@@ -14,3 +14,5 @@ import BalmProofs.Props.C05
 #print axioms Balm.Impl.weak_complete_leaves
 #print axioms Balm.Impl.exists_min_inside
 #print axioms Balm.Impl.judgeWeak_iff
+#print axioms Balm.Impl.ownA_iff_succ
+#print axioms Balm.Impl.own_motif_iff_succ
